@@ -1251,6 +1251,13 @@ func (app *App) performSwitchover(clusterState map[string]*nodestate.NodeState, 
 		activeNodes = filterOut(activeNodes, []string{oldMaster})
 	}
 
+	// a host that was removed from the cluster may still be recorded as master or listed as active
+	for _, host := range append(slices.Clone(activeNodes), oldMaster) {
+		if clusterState[host] == nil {
+			return fmt.Errorf("switchover: host %s is not among cluster hosts", host)
+		}
+	}
+
 	err := app.stopActiveNodeOptimization(oldMaster, activeNodes)
 	if err != nil {
 		return err
